@@ -841,6 +841,7 @@ func first(a, _ []byte) []byte { return a }
 //@   ensures[new_leaf_holds_key] forallref(o, implies(fresh(o) && atype(o) == leafT(), leafKeyIs_alpha(o, keyS) && as(alphaLeafNode, o).value == val))
 //@   ensures[new_leaf_linked] implies(defined(leafRef) && !defined(newNode) && calls("Insert$1") == 1, lookP(*ref, keyS[depth]) == leafRef.pointer && lookT(*ref, keyS[depth]) == 4)
 //@   ensures[split_links_new_leaf] implies(defined(splitPrefix) && defined(leafRef) && calls("Insert$1") == 1, (*ref).pointer == newNode && (*ref).tag == 0 && lookP(*ref, keyS[splitPrefix]) == leafRef.pointer && as(node, newNode).prefixLen == longestPrefix && splitPrefix == depth + longestPrefix)
+//@   ensures[path_split_links_new_leaf] implies(defined(newNode) && !defined(splitPrefix) && defined(leafRef) && calls("Insert$1") == 1, (*ref).pointer == newNode && (*ref).tag == 0 && lookP(*ref, keyS[depth + prefixDiff]) == leafRef.pointer && as(node, newNode).prefixLen == prefixDiff)
 //@   ensures[overwrite_key_matches] implies(defined(nl) && calls("Insert$1") == 0 && calls("Get") == 0, leafKeyIs_alpha(nl, keyS) && as(alphaLeafNode, nl).value == val)
 //@   ensures[overwrite_only_value] implies(calls("Insert$1") == 0 && calls("Get") == 0, frameExcept("alphaLeafNode.value"))
 //@   ensures[arg_bytes_unchanged] reveal(key.obj) && sameBytes(key, 0, blen(key.obj))
@@ -866,6 +867,7 @@ func first(a, _ []byte) []byte { return a }
 //@   ensures[new_leaf_holds_key] forallref(o, implies(fresh(o) && atype(o) == leafT(), leafKeyIs_$KIND(o, keyS) && as($KINDLeafNode, o).value == val))
 //@   ensures[new_leaf_linked] implies(defined(leafRef) && !defined(newNode) && calls("Insert$1") == 1, lookP(*ref, keyS[depth]) == leafRef.pointer && lookT(*ref, keyS[depth]) == 4)
 //@   ensures[split_links_new_leaf] implies(defined(splitPrefix) && defined(leafRef) && calls("Insert$1") == 1, (*ref).pointer == newNode && (*ref).tag == 0 && lookP(*ref, keyS[splitPrefix]) == leafRef.pointer && as(node, newNode).prefixLen == longestPrefix && splitPrefix == depth + longestPrefix)
+//@   ensures[path_split_links_new_leaf] implies(defined(newNode) && !defined(splitPrefix) && defined(leafRef) && calls("Insert$1") == 1, (*ref).pointer == newNode && (*ref).tag == 0 && lookP(*ref, keyS[depth + prefixDiff]) == leafRef.pointer && as(node, newNode).prefixLen == prefixDiff)
 //@   ensures[overwrite_key_matches] implies(defined(nl) && calls("Insert$1") == 0 && calls("Get") == 0, leafKeyIs_$KIND(nl, keyS) && as($KINDLeafNode, nl).value == val)
 //@   ensures[overwrite_only_value] implies(calls("Insert$1") == 0 && calls("Get") == 0, frameExcept("$KINDLeafNode.value"))
 //@   ensures[wf] WF1_$KIND(t)
@@ -991,6 +993,7 @@ func first(a, _ []byte) []byte { return a }
 //@   ensures[new_leaf_holds_key] forallref(o, implies(fresh(o) && atype(o) == leafT(), leafKeyIs_collation(o, keyS) && as(collateLeafNode, o).value == val))
 //@   ensures[new_leaf_linked] implies(defined(leafRef) && !defined(newNode) && calls("Insert$1") == 1, lookP(*ref, colKey[depth]) == leafRef.pointer && lookT(*ref, colKey[depth]) == 4)
 //@   ensures[split_links_new_leaf] implies(defined(splitPrefix) && defined(leafRef) && calls("Insert$1") == 1, (*ref).pointer == newNode && (*ref).tag == 0 && lookP(*ref, colKey[splitPrefix]) == leafRef.pointer && as(node, newNode).prefixLen == longestPrefix && splitPrefix == depth + longestPrefix)
+//@   ensures[path_split_links_new_leaf] implies(defined(newNode) && !defined(splitPrefix) && defined(leafRef) && calls("Insert$1") == 1, (*ref).pointer == newNode && (*ref).tag == 0 && lookP(*ref, colKey[depth + prefixDiff]) == leafRef.pointer && as(node, newNode).prefixLen == prefixDiff)
 //@   ensures[overwrite_key_matches] implies(defined(nl) && calls("Insert$1") == 0 && calls("Get") == 0, leafKeyIs_collation(nl, keyS) && as(collateLeafNode, nl).value == val)
 //@   ensures[overwrite_only_value] implies(calls("Insert$1") == 0 && calls("Get") == 0, frameExcept("collateLeafNode.value", "collationSortedTree.cok.src", "CollationOrderKey.src"))
 //@   ensures[wf] WF1_collation(t)
